@@ -4,7 +4,7 @@ CONSTANTS
   Owners <- O2
   SubOpts <- OptWeak
   AutoOpts <- AutoTwo
-  RVs = {"none", "remove"}
+  RVs = {"none"}
   UnsubModes = {"handler", "pair"}
   Forms = {"inst"}
   NoErrs = {FALSE}
